@@ -119,10 +119,14 @@ func c03Arm(p *Program) {
 				ownErr := errors.New("error recorded by " + id)
 				c.AddError(ownErr)
 				cp := c.Copy()
+				ownParams := fmtParams(copyParams(c.Params))
 				bg.Add(1)
 				go func() {
 					defer bg.Done()
-					for i := 0; i < 3; i++ {
+					for i := 0; i < 6; i++ {
+						if got := fmtParams(copyParams(cp.Params)); got != ownParams {
+							rec.Ev("copy-of-context-shows-foreign-params{%s}", got)
+						}
 						cp.Set("bg-step", i)
 						if v, _ := cp.Get("owner"); v != id {
 							rec.Ev("copy-of-context-shows-foreign-data(%v)", v)
